@@ -299,3 +299,112 @@ def validate_trace(wd, rows, module, cfg_head, props, invariants=(), label="trac
                 return res
             continue
         raise Machinery("unexpected TLC outcome %s/%s:\n%s" % (r.status, r.kind, r.out[-3000:]))
+
+
+# --------------------------------------------------------------------------- generic pipeline
+def pipeline(pid, tier, replay, spec_dir, mc_runs, gens, drivers, replay_driver, trace_module, trace_head,
+             props=(), invs=(), nontrivial=None, strip=None, rule_text="", assumptions=(), match_finding=None,
+             chunk=30000, reset_key="ev", extra_cov=None, max_viol=12, binary=None, wd=None):
+    """The pipeline of DESIGN 2.1 for one property:
+    mc_runs : [(tag, module, cfg_text, workers, timeout)]             exhaustive TLC runs of the module (background)
+    gens    : [(module, cfg_text, outdir, num, depth)]                TLC -simulate schedule generators
+    drivers : [(test, env, [trace files])]                            harness drivers producing NDJSON traces
+    replay_driver : (test, env-key for the path, trace file)          driver used for --replay
+    """
+    import threading
+    t0 = time.time()
+    wd = wd or workdir(pid)
+    copy_spec(spec_dir, wd)
+    thorough = tier == "thorough"
+    mc = {}
+
+    def mc_run(tag, module, cfgtext, workers, tmo):
+        cfg = "mc_%s.cfg" % tag
+        with open(os.path.join(wd, cfg), "w") as f:
+            f.write(cfgtext)
+        mc[tag] = tlc(wd, module, cfg, workers=workers, timeout=tmo)
+
+    threads = []
+    if not replay:
+        for r in mc_runs:
+            th = threading.Thread(target=mc_run, args=r)
+            th.start()
+            threads.append(th)
+    binary = binary or build_harness(wd)
+    rows, nsched = [], 0
+    if replay:
+        test, key, tf = replay_driver
+        run_harness(binary, test, {"VERIF_OUT": wd, key: os.path.abspath(replay)})
+        rows = read_ndjson(os.path.join(wd, tf))
+    else:
+        for gi, (module, cfgtext, outdir, num, depth) in enumerate(gens):
+            os.makedirs(os.path.join(wd, outdir), exist_ok=True)
+            cfg = "gen_%d.cfg" % gi
+            with open(os.path.join(wd, cfg), "w") as f:
+                f.write(cfgtext)
+            g = tlc(wd, module, cfg, workers=1, timeout=1200, simulate="num=%d" % num, depth=depth + 2, tseed=seed())
+            k = len([x for x in os.listdir(os.path.join(wd, outdir)) if x.endswith(".ndjson")])
+            if k == 0:
+                raise Machinery("TLC generated no schedules (%s):\n%s" % (module, g.out[-2000:]))
+            nsched += k
+        for (test, env, files) in drivers:
+            e = {"VERIF_OUT": wd}
+            e.update({k: (os.path.join(wd, v[1:]) if isinstance(v, str) and v.startswith("@") else v) for k, v in env.items()})
+            run_harness(binary, test, e, timeout=3000)
+            for tf in files:
+                rows += read_ndjson(os.path.join(wd, tf))
+    if not rows:
+        raise Machinery("no trace recorded")
+    execs = split_executions(rows, reset_key)
+    chunks, cur = [], []
+    for (_, ex) in execs:
+        if cur and len(cur) + len(ex) > chunk:
+            chunks.append(cur)
+            cur = []
+        cur += ex
+    if cur:
+        chunks.append(cur)
+    accepted, events, viols = 0, 0, []
+    head = trace_head(rows[0]) if callable(trace_head) else trace_head
+    for ci, ch in enumerate(chunks):
+        r = validate_trace(wd, ch, trace_module, head, list(props), invariants=list(invs), label="t%d" % ci, timeout=3000, max_viol=max_viol)
+        if r["blocked"]:
+            raise Machinery("trace not followable by the module (drift, no property verdict): %s" % json.dumps(r["blocked"])[:1500])
+        accepted += r["accepted_execs"]
+        events += r["events"]
+        viols += r["violations"]
+    for th in threads:
+        th.join()
+    for tag, x in mc.items():
+        if x.status != "ok":
+            raise Machinery("model checking (%s) did not pass: %s %s %s\n%s" % (tag, x.status, x.kind, x.name, x.out[-2500:]))
+    known, rest = {}, []
+    for v in viols:
+        f = match_finding(pid, v) if match_finding else None
+        if f:
+            known[f["id"]] = f
+        else:
+            rest.append(v)
+    strip = strip or (lambda ex: ex)
+    for f in known.values():
+        print("KNOWN-FINDING: property=%s %s" % (pid, f["what"]))
+    rc = 0
+    for v in rest:
+        path = save_violation(pid, v["segment"], {"rule": v["rule"], "event": strip([v["segment"][-1]])[0], "model_state": v["state"]})
+        print("VIOLATION property=%s replay=%s" % (pid, path))
+        log("  rule %s violated at event %d of an execution: %s" % (v["rule"], v["index"], json.dumps(strip([v["segment"][-1]])[0])[:600]))
+        rc = 1
+    cov = {"states": max(1, sum(x.distinct for x in mc.values())), "transitions": max(1, sum(x.generated for x in mc.values())),
+           "traces_validated_against_impl": accepted, "evaluations": events,
+           "distinct_nontrivial": sum(1 for (_, ex) in execs if (nontrivial(ex) if nontrivial else True)),
+           "rule": rule_text, "samples": [strip(ex[:5]) for (_, ex) in execs[:2]], "tlc_schedules": nsched,
+           "known_findings": sorted(known.keys()),
+           "model_checking": {k: {"distinct": x.distinct, "generated": x.generated, "depth": x.depth, "wall_s": round(x.wall, 1)} for k, x in mc.items()},
+           "checker_cmd": "tlc <Module>MC (exhaustive, bounded) ; tlc -workers 1 %s (trace validation; rules %s)" % (trace_module, " ".join(list(props) + list(invs))),
+           "exhaustive": False}
+    if extra_cov:
+        cov.update(extra_cov)
+    write_evidence(pid, tier, "model_checking", cov, time.time() - t0, violations=len(rest), assumptions=list(assumptions))
+    if rc == 0:
+        shutil.rmtree(wd, ignore_errors=True)
+    return rc
